@@ -25,6 +25,8 @@ func init() {
 		Phases: func(tier string) []engine.Phase {
 			zs := alpha.Zall // cheap: always all zooms
 			return []engine.Phase{
+				respellZoomPhase("C03", tier),
+				longIDListPhase("C03", tier),
 				{Name: "voxelsets-machine-zoom", Custom: runVoxWorlds("C03", "Z", tier), ReplayCustom: replayVoxWorld("C03", "Z", tier),
 					Rule: "BFS over worlds (root voxel + descendants two levels down, optionally the twin across f=-1|0); ops: Z[h,v] for a 5x5 window of target zooms (verified against the model through both APIs), M[h,v] and drop/add (drivers); non-trivial = distinct (state, Z target) whose result differs from the state"},
 				{Name: "textual-prefix-lists", ShardDepth: 2, Bounds: engine.Bounds{InputDev: -1},
